@@ -21,8 +21,9 @@ struct CsdoRun : NodeEnv {
     static void appCb(void *) {}
     // completion callback: logs; when armed by 'cbtimer' the application starts a (long, periodic) timer of its own from inside it - e.g. a retry timer after a failed transfer
     static void doneCb(CO_CSDO *csdo, uint16_t index, uint8_t sub, uint32_t code) { if (!W) return; W->ev(EV_CSDODONE, (int64_t)(csdo - W->S().node->CSdo), ((int64_t)index << 8) | sub, (int64_t)code);
-        CsdoRun *g = self; if (g && !g->tight && g->cbTimerArmed > 0 && g->appTimers.size() < 5) {   /* capacity is assumed by the property: not in the tight configuration */ g->cbTimerArmed--; int16_t id = COTmrCreate(&W->S().node->Tmr, 1000000, 1000000, appCb, nullptr); if (id >= 0) { g->appTimers.push_back(id); for (auto &x : g->c) x.slotsBefore++; g->cov.hit(code == 0x05040000 ? "timer-created-from-the-completion-callback-of-a-time-out" : "timer-created-from-the-completion-callback"); g->nontrivial = true; } else (void)CONodeGetErr(W->S().node); } }
-    static CsdoRun *self; int cbTimerArmed = 0;
+        CsdoRun *g = self; if (g && g->cbRetry > 0 && code != 0) { g->cbRetry--; static uint8_t retryBuf[4]; CO_ERR e = COCSdoRequestUpload(csdo, CO_DEV(index, sub), retryBuf, 4, doneCb, 20); (void)CONodeGetErr(W->S().node); g->cov.hit(e == CO_ERR_NONE ? "retry-from-the-completion-callback-accepted" : "retry-from-the-completion-callback-refused-busy"); }   // a retry from inside the callback: the client is still busy there (also inside a reset) - it must be refused and leave nothing behind
+        if (g && !g->tight && g->cbTimerArmed > 0 && g->appTimers.size() < 5) {   /* capacity is assumed by the property: not in the tight configuration */ g->cbTimerArmed--; int16_t id = COTmrCreate(&W->S().node->Tmr, 1000000, 1000000, appCb, nullptr); if (id >= 0) { g->appTimers.push_back(id); for (auto &x : g->c) x.slotsBefore++; g->cov.hit(code == 0x05040000 ? "timer-created-from-the-completion-callback-of-a-time-out" : "timer-created-from-the-completion-callback"); g->nontrivial = true; } else (void)CONodeGetErr(W->S().node); } }
+    static CsdoRun *self; int cbTimerArmed = 0; int cbRetry = 0;
     uint32_t txId(int n) { return 0x600u + SRV + (uint32_t)n * 0x10; }
     uint32_t rxId(int n) { return 0x580u + SRV + (uint32_t)n * 0x10; }
     void build() {
@@ -156,6 +157,7 @@ struct CsdoRun : NodeEnv {
             bool foreignAbort = wasBusy && r.d[0] == 0x80 && (r.u16(1) != c[n].idx || r.d[3] != c[n].sub) && c[n].size <= 4 && !c[n].malformed;
             if (foreignAbort) { cov.hit("foreign-abort-during-expedited-transfer"); nontrivial = true; } else if (wasBusy) { c[n].malformed = true; c[n].exp = E_ANY; } w.rx(0, r); w.canproc(0); cov.frames_in++; harvest(mk, "unsolicited server frame"); cov.hit(wasBusy ? "unsolicited-while-busy" : "unsolicited-while-idle"); }
         else if (k == "cbtimer") { cbTimerArmed = (int)(o.arg(0) % 3) + 1; }
+        else if (k == "cbretry") { cbRetry = (int)(o.arg(0) % 3) + 1; }
         else if (k == "apptmr") { w.cur = 0; if (tight) return; if (o.arg(0) && appTimers.size() >= 5) return;   /* capacity is assumed by the property: 8 slots = 5 application timers + 2 clients + 1 spare */
             if (o.arg(0)) { int16_t id = COTmrCreate(&N()->Tmr, (uint32_t)o.arg(1), (uint32_t)o.arg(2) + 1, appCb, nullptr); if (id >= 0) { appTimers.push_back(id); for (auto &x : c) x.slotsBefore++; } } else if (!appTimers.empty()) { (void)COTmrDelete(&N()->Tmr, (int16_t)appTimers.back()); appTimers.pop_back(); for (auto &x : c) x.slotsBefore--; } }
         else if (k == "nmt") { uint8_t cs = (uint8_t)o.arg(0); for (auto &x : c) if (x.busy && (cs == 129 || cs == 130)) { x.exp = E_ANY; cov.hit("reset-while-busy"); nontrivial = true; } w.rx(0, Frame(0, 2, {cs, 0})); w.canproc(0); harvest(mk, "NMT command");
@@ -185,6 +187,7 @@ Plan gen_csdo(Rng &r, bool thorough) {
         int64_t tmo = r.pick<int64_t>({10, 20, 50, 100, 500}); int64_t beh = r.chance(1, 2) ? 0 : (int64_t)r.below(B_N); int64_t k = r.below(6);
         if (r.chance(1, 6)) p.ops.push_back(Op("apptmr", {1, r.range(1, 30), r.range(0, 20)}));
         if (r.chance(1, 5)) p.ops.push_back(Op("cbtimer", {(int64_t)r.below(3)}));
+        if (r.chance(1, 5)) p.ops.push_back(Op("cbretry", {(int64_t)r.below(3)}));
         p.ops.push_back(Op("req", {n, up ? 1 : 0, size, tmo, beh, k, (int64_t)(r.below(4) | r.below(3) << 8), (int64_t)r.below(1000), r.pick<int64_t>({0, 0x06020000, 0x08000000, 0x05040001, 1, 2, 0x60, 0x41, 0x00, 0xFF})}));
         int mode = (int)r.below(10);
         if (mode < 5) p.ops.push_back(Op("run", {n}));
